@@ -245,4 +245,328 @@ theorem C15_swap_guards (cfg : Cfg X) (k e : Nat) (m : Map X)
         · simp [h4]
         · simp [h4]
 
+/-- **C15 (a), swap**: every call of `swap_edge` — successful, refused (NullEdge / IncompleteEdge / BadTopology /
+    a failing core operation or attribute law), panicking — on an in-use dart of a well-formed 2-map whose two
+    faces at the edge are closed at the edge darts leaves the map well formed. -/
+theorem C15_swap_preserves_WF (cfg : Cfg X) (m : Map X) (e : Nat) (hwf : WF 3 m) (he : C01.InUse m e)
+    (hl : m.β 1 e ≠ 0 ∧ m.β 0 e ≠ 0)
+    (hr : m.β 2 e ≠ 0 → m.β 1 (m.β 2 e) ≠ 0 ∧ m.β 0 (m.β 2 e) ≠ 0) :
+    WF 3 (atomically (swapEdge cfg m.n e) m).2 := by
+  refine wf_atomically_of hwf fun a m' h => ?_
+  rw [C15_swap_guards cfg m.n e m (fun i d hi hd => (hwf.toSized.okβ i d).2 ⟨hi, hd⟩)
+    (fun i d hi hd => hwf.range i hi d hd) he.2.1] at h
+  simp only [he.1, if_false] at h
+  by_cases h2 : m.β 2 e = 0
+  · simp [h2] at h
+  · simp only [h2, if_false] at h
+    split at h
+    · simp at h
+    · have Lr := live_image hwf (by omega : 2 < 3) he.2.1 h2
+      obtain ⟨r1, r0⟩ := hr h2
+      exact (keeps_swapBody cfg m.n (Live.of_inUse he) Lr (live_image hwf (by omega) he.2.1 hl.2)
+        (live_image hwf (by omega) he.2.1 hl.1) (live_image hwf (by omega) Lr.2.1 r0)
+        (live_image hwf (by omega) Lr.2.1 r1) m m' a (Inv.of_wf hwf) h).wf
+
+/-- **C15 (a), C06 instance**: a remeshing call that reports an error (or retries, or panics) leaves every β
+    image, every flag and every slot of every storage — coordinates and anchors included — as it was -/
+theorem C15_error_leaves_map_unchanged {α : Type} (p : P X α) (m : Map X)
+    (h : ∀ a, (atomically p m).1 ≠ .ok a) : (atomically p m).2 = m :=
+  C01.C01_failed_call_changes_nothing p m h
+
+/-! ## frames: which β images a prefix of a kernel can have changed -/
+
+def Frame (D : List Nat) (m m' : Map X) : Prop := ∀ i d, d ∉ D → m'.β i d = m.β i d
+
+theorem Frame.trans {D : List Nat} {m m' m'' : Map X} (h1 : Frame D m m') (h2 : Frame D m' m'') : Frame D m m'' :=
+  fun i d hd => (h2 i d hd).trans (h1 i d hd)
+
+theorem Frame.mono {D D' : List Nat} {m m' : Map X} (h : Frame D m m') (hs : ∀ d, d ∈ D → d ∈ D') : Frame D' m m' :=
+  fun i d hd => h i d (fun hh => hd (hs d hh))
+
+theorem frame_setβ (m : Map X) (i d v : Nat) : Frame [d] m (m.setβ i d v) := by
+  intro j e he
+  rw [Map.β_setβ]
+  have : d ≠ e := fun h => he (by simp [h])
+  simp [this]
+
+theorem frame_oneLinkCore {l r : Nat} {m m' : Map X} {a : Unit} (h : run (oneLinkCore (X := X) l r) m = (.ok a, m')) :
+    Frame [l, r] m m' := by
+  obtain ⟨_, _, _, _, rfl⟩ := oneLinkCore_ok h
+  exact ((frame_setβ m 1 l r).mono (by simp)).trans ((frame_setβ _ 0 r l).mono (by simp))
+
+theorem frame_iLinkCore {i l r : Nat} {m m' : Map X} {a : Unit} (h : run (iLinkCore (X := X) i l r) m = (.ok a, m')) :
+    Frame [l, r] m m' := by
+  obtain ⟨_, _, _, _, rfl⟩ := iLinkCore_ok h
+  exact ((frame_setβ m i l r).mono (by simp)).trans ((frame_setβ _ i r l).mono (by simp))
+
+theorem frame_sameTopo {D : List Nat} {m m' : Map X} (st : SameTopo m m') : Frame D m m' := by
+  intro i d _
+  unfold Map.β
+  rw [st.b]
+
+theorem frame_attrOnly {D : List Nat} {α : Type} {p : P X α} (hp : AttrOnly p) {m m' : Map X} {a : α}
+    (h : run p m = (.ok a, m')) : Frame D m m' := by
+  have st := hp m; rw [h] at st
+  exact frame_sameTopo st
+
+theorem inv_attrOnly {α : Type} {p : P X α} (hp : AttrOnly p) {m m' : Map X} {a : α}
+    (hi : Inv n u m) (h : run p m = (.ok a, m')) : Inv n u m' :=
+  Keeps.of_attrOnly hp m m' a hi h
+
+/-! ## attribute-only pieces of the cut kernels -/
+
+theorem ro_retry {α : Type} : ReadOnly (Prog.retry : P X α) := fun _ => rfl
+
+theorem ao_fid (k d : Nat) : AttrOnly (faceId2 (X := X) k d) := AttrOnly.of_readOnly (readOnly_faceId2 k d)
+
+theorem ao_readAttr (cfg : Cfg X) (s id : Nat) : AttrOnly (readAttr cfg s id) := by
+  unfold readAttr
+  exact AttrOnly.ite (AttrOnly.of_readOnly (ReadOnly.rA _ _)) (AttrOnly.pure _)
+
+theorem ao_writeAttr (cfg : Cfg X) (s id : Nat) (v : X) : AttrOnly (writeAttr cfg s id v) := by
+  unfold writeAttr
+  refine AttrOnly.ite ?_ (AttrOnly.pure _)
+  refine AttrOnly.bind (AttrOnly.of_readOnly (ReadOnly.rA _ _)) fun _ => ?_
+  exact AttrOnly.bind (AttrOnly.wA _ _ _) fun _ => AttrOnly.pure _
+
+theorem ao_removeAttr (cfg : Cfg X) (s id : Nat) : AttrOnly (removeAttr cfg s id) := by
+  unfold removeAttr
+  refine AttrOnly.ite ?_ (AttrOnly.pure _)
+  refine AttrOnly.bind (AttrOnly.of_readOnly (ReadOnly.rA _ _)) fun _ => ?_
+  exact AttrOnly.bind (AttrOnly.wA _ _ _) fun _ => AttrOnly.pure _
+
+theorem ao_writeVtx (d : Nat) (v : Val) : AttrOnly (writeVtx d v) := by
+  unfold writeVtx
+  refine AttrOnly.bind (AttrOnly.of_readOnly (ReadOnly.rA _ _)) fun _ => ?_
+  exact AttrOnly.bind (AttrOnly.wA _ _ _) fun _ => AttrOnly.pure _
+
+theorem ao_takeFaceAnchor (cfg : Cfg Val) (k d : Nat) : AttrOnly (takeFaceAnchor cfg k d) := by
+  unfold takeFaceAnchor
+  refine AttrOnly.ite ?_ (AttrOnly.pure _)
+  exact AttrOnly.bind (ao_fid _ _) fun _ => ao_removeAttr _ _ _
+
+theorem ao_peekEdgeAnchor (cfg : Cfg Val) (e : Nat) : AttrOnly (peekEdgeAnchor cfg e) := by
+  unfold peekEdgeAnchor
+  exact AttrOnly.ite (ao_readAttr _ _ _) (AttrOnly.pure _)
+
+theorem ao_midpointOrRetry (v1 v2 : Nat) : AttrOnly (midpointOrRetry v1 v2) := by
+  unfold midpointOrRetry
+  refine AttrOnly.bind (AttrOnly.of_readOnly (ReadOnly.rA _ _)) fun a => ?_
+  refine AttrOnly.bind (AttrOnly.of_readOnly (ReadOnly.rA _ _)) fun b => ?_
+  cases a <;> cases b
+  · exact AttrOnly.of_readOnly ro_retry
+  · exact AttrOnly.of_readOnly ro_retry
+  · exact AttrOnly.of_readOnly ro_retry
+  · exact AttrOnly.pure _
+
+theorem ao_spreadFaceAnchor (cfg : Cfg Val) (k : Nat) (fa : Option Val) (a b : Nat) :
+    AttrOnly (spreadFaceAnchor cfg k fa a b) := by
+  unfold spreadFaceAnchor
+  cases fa
+  · exact AttrOnly.pure _
+  · refine AttrOnly.bind (ao_fid _ _) fun _ => ?_
+    refine AttrOnly.bind (ao_fid _ _) fun _ => ?_
+    refine AttrOnly.bind (ao_writeAttr _ _ _ _) fun _ => ?_
+    refine AttrOnly.bind (ao_writeAttr _ _ _ _) fun _ => ?_
+    refine AttrOnly.ite ?_ (AttrOnly.pure _)
+    refine AttrOnly.bind (C01.ao_eid _) fun _ => ?_
+    exact AttrOnly.bind (ao_writeAttr _ _ _ _) fun _ => AttrOnly.pure _
+
+theorem ao_spreadEdgeAnchor (cfg : Cfg Val) (k : Nat) (ea : Option Val) (a : Nat) :
+    AttrOnly (spreadEdgeAnchor cfg k ea a) := by
+  unfold spreadEdgeAnchor
+  cases ea
+  · exact AttrOnly.pure _
+  · refine AttrOnly.bind (C01.ao_vid _ _) fun _ => ?_
+    exact AttrOnly.bind (ao_writeAttr _ _ _ _) fun _ => AttrOnly.pure _
+
+/-! ## (a) cut_outer_edge -/
+
+/-- `cut_outer_edge` after the reads of `β0(e)`, `β1(e)` -/
+def cutOuterTail (cfg : Cfg Val) (n ld nd1 nd2 nd3 : Nat) (fAnchor eAnchor : Option Val) (b0ld b1ld : Nat) :
+    P Val Unit := do
+  let vid1 ← vertexId2 n ld
+  let vid2 ← vertexId2 n b1ld
+  let newV ← midpointOrRetry vid1 vid2
+  let _ ← writeVtx nd1 newV
+  oneUnsew2 cfg n ld
+  oneUnsew2 cfg n b1ld
+  oneSew2 cfg n ld nd1
+  oneSew2 cfg n nd1 b0ld
+  oneSew2 cfg n nd3 b1ld
+  oneSew2 cfg n b1ld nd2
+  spreadFaceAnchor cfg n fAnchor nd1 nd2
+  spreadEdgeAnchor cfg n eAnchor nd1
+
+theorem keeps_cutOuterTail (cfg : Cfg Val) (k : Nat) {ld nd1 nd2 nd3 b0ld b1ld : Nat} (fa ea : Option Val)
+    (hl : Live n u ld) (h1 : Live n u nd1) (h2 : Live n u nd2) (h3 : Live n u nd3)
+    (hb0 : Live n u b0ld) (hb1 : Live n u b1ld) :
+    Keeps n u (cutOuterTail cfg k ld nd1 nd2 nd3 fa ea b0ld b1ld) := by
+  unfold cutOuterTail
+  refine Keeps.ro_bind (readOnly_vertexId2 _ _) fun _ => ?_
+  refine Keeps.ro_bind (readOnly_vertexId2 _ _) fun _ => ?_
+  refine Keeps.bind (Keeps.of_attrOnly (ao_midpointOrRetry _ _)) fun _ => ?_
+  refine Keeps.bind (Keeps.of_attrOnly (ao_writeVtx _ _)) fun _ => ?_
+  refine Keeps.bind (keeps_oneUnsew2 cfg k hl) fun _ => ?_
+  refine Keeps.bind (keeps_oneUnsew2 cfg k hb1) fun _ => ?_
+  refine Keeps.bind (keeps_oneSew2 cfg k hl h1) fun _ => ?_
+  refine Keeps.bind (keeps_oneSew2 cfg k h1 hb0) fun _ => ?_
+  refine Keeps.bind (keeps_oneSew2 cfg k h3 hb1) fun _ => ?_
+  refine Keeps.bind (keeps_oneSew2 cfg k hb1 h2) fun _ => ?_
+  refine Keeps.bind (Keeps.of_attrOnly (ao_spreadFaceAnchor _ _ _ _ _)) fun _ => ?_
+  exact Keeps.of_attrOnly (ao_spreadEdgeAnchor _ _ _ _)
+
+/-- a free in-use dart -/
+def Spare (m : Map Val) (d : Nat) : Prop := C01.InUse m d ∧ m.isFree 3 d = true
+
+theorem Spare.β {m : Map Val} {d : Nat} (h : Spare m d) (i : Nat) (hi : i < 3) : m.β i d = 0 :=
+  (isFree_iff m 3 d).1 h.2 i hi
+
+/-- **C15 (a), cut_outer_edge**: every call (successful, refused, retried because an end point has no coordinates,
+    panicking) with an in-use edge dart whose face is closed at it (`β0(e)`, `β1(e)` non-null) and three free
+    in-use spare darts (`nd1 ≠ nd2`) leaves a well-formed 2-map well formed. -/
+theorem C15_cutOuter_preserves_WF (cfg : Cfg Val) (m : Map Val) (e nd1 nd2 nd3 : Nat) (hwf : WF 3 m)
+    (he : C01.InUse m e) (hl : m.β 1 e ≠ 0 ∧ m.β 0 e ≠ 0)
+    (s1 : Spare m nd1) (s2 : Spare m nd2) (s3 : Spare m nd3) (h12 : nd1 ≠ nd2) :
+    WF 3 (atomically (cutOuterEdge cfg m.n e nd1 nd2 nd3) m).2 := by
+  refine wf_atomically_of hwf fun a m' h => ?_
+  have L1 : Live m.n m.u nd1 := Live.of_inUse s1.1
+  have L2 : Live m.n m.u nd2 := Live.of_inUse s2.1
+  have L3 : Live m.n m.u nd3 := Live.of_inUse s3.1
+  have e2 : e ≠ nd2 := fun hh => hl.1 (by rw [hh]; exact s2.β 1 (by omega))
+  have e3 : e ≠ nd3 := fun hh => hl.2 (by rw [hh]; exact s3.β 0 (by omega))
+  unfold cutOuterEdge at h
+  obtain ⟨_, m1, r1, h⟩ := run_bind_ok h
+  have I1 := Keeps.twoLinkCore (X := Val) L1 L2 h12 m m1 _ (Inv.of_wf hwf) r1
+  have F1 : Frame [nd1, nd2, nd3] m m1 := (frame_iLinkCore r1).mono (by simp)
+  obtain ⟨_, m2, r2, h⟩ := run_bind_ok h
+  have I2 := Keeps.oneLinkCore (X := Val) L2 L3 m1 m2 _ I1 r2
+  have F2 : Frame [nd1, nd2, nd3] m m2 := F1.trans ((frame_oneLinkCore r2).mono (by simp))
+  obtain ⟨fa, m3, r3, h⟩ := run_bind_ok h
+  have I3 := inv_attrOnly (ao_takeFaceAnchor cfg m.n e) I2 r3
+  have F3 : Frame [nd1, nd2, nd3] m m3 := F2.trans (frame_attrOnly (ao_takeFaceAnchor cfg m.n e) r3)
+  obtain ⟨ea, m4, r4, h⟩ := run_bind_ok h
+  have I4 := inv_attrOnly (ao_peekEdgeAnchor cfg e) I3 r4
+  have F4 : Frame [nd1, nd2, nd3] m m4 := F3.trans (frame_attrOnly (ao_peekEdgeAnchor cfg e) r4)
+  obtain ⟨_, h⟩ := rB_ok h
+  obtain ⟨_, h⟩ := rB_ok h
+  -- the reads see the images of the initial map: `e` is none of the spare darts
+  have e1 : e ≠ nd1 := fun hh => hl.1 (by rw [hh]; exact s1.β 1 (by omega))
+  have hne : e ∉ [nd1, nd2, nd3] := by simp [e1, e2, e3]
+  rw [F4 0 e hne, F4 1 e hne] at h
+  exact (keeps_cutOuterTail cfg m.n fa ea (Live.of_inUse he) L1 L2 L3
+    (live_image hwf (by omega) he.2.1 hl.2) (live_image hwf (by omega) he.2.1 hl.1) m4 m' a I4 h).wf
+
+/-! ## (a) cut_inner_edge -/
+
+/-- `cut_inner_edge` after the reads of `β0`, `β1` of both edge darts -/
+def cutInnerTail (cfg : Cfg Val) (n ld rd nd1 nd2 nd3 nd4 nd5 nd6 : Nat) (lf rf eAnchor : Option Val)
+    (b0ld b1ld b0rd b1rd : Nat) : P Val Unit := do
+  let vid1 ← vertexId2 n ld
+  let vid2 ← vertexId2 n b1ld
+  let newV ← midpointOrRetry vid1 vid2
+  let _ ← writeVtx nd1 newV
+  twoUnsew2 cfg n ld
+  oneUnsew2 cfg n ld
+  oneUnsew2 cfg n b1ld
+  oneUnsew2 cfg n rd
+  oneUnsew2 cfg n b1rd
+  twoSew2 cfg n ld nd6
+  twoSew2 cfg n rd nd3
+  oneSew2 cfg n ld nd1
+  oneSew2 cfg n nd1 b0ld
+  oneSew2 cfg n nd3 b1ld
+  oneSew2 cfg n b1ld nd2
+  oneSew2 cfg n rd nd4
+  oneSew2 cfg n nd4 b0rd
+  oneSew2 cfg n nd6 b1rd
+  oneSew2 cfg n b1rd nd5
+  spreadFaceAnchor cfg n lf nd1 nd2
+  spreadFaceAnchor cfg n rf nd4 nd5
+  spreadEdgeAnchor cfg n eAnchor nd1
+
+theorem keeps_cutInnerTail (cfg : Cfg Val) (k : Nat) {ld rd nd1 nd2 nd3 nd4 nd5 nd6 b0ld b1ld b0rd b1rd : Nat}
+    (lf rf ea : Option Val) (hl : Live n u ld) (hr : Live n u rd)
+    (h1 : Live n u nd1) (h2 : Live n u nd2) (h3 : Live n u nd3) (h4 : Live n u nd4) (h5 : Live n u nd5)
+    (h6 : Live n u nd6) (hb0l : Live n u b0ld) (hb1l : Live n u b1ld) (hb0r : Live n u b0rd) (hb1r : Live n u b1rd)
+    (hl6 : ld ≠ nd6) (hr3 : rd ≠ nd3) :
+    Keeps n u (cutInnerTail cfg k ld rd nd1 nd2 nd3 nd4 nd5 nd6 lf rf ea b0ld b1ld b0rd b1rd) := by
+  unfold cutInnerTail
+  refine Keeps.ro_bind (readOnly_vertexId2 _ _) fun _ => ?_
+  refine Keeps.ro_bind (readOnly_vertexId2 _ _) fun _ => ?_
+  refine Keeps.bind (Keeps.of_attrOnly (ao_midpointOrRetry _ _)) fun _ => ?_
+  refine Keeps.bind (Keeps.of_attrOnly (ao_writeVtx _ _)) fun _ => ?_
+  refine Keeps.bind (keeps_twoUnsew2 cfg k hl) fun _ => ?_
+  refine Keeps.bind (keeps_oneUnsew2 cfg k hl) fun _ => ?_
+  refine Keeps.bind (keeps_oneUnsew2 cfg k hb1l) fun _ => ?_
+  refine Keeps.bind (keeps_oneUnsew2 cfg k hr) fun _ => ?_
+  refine Keeps.bind (keeps_oneUnsew2 cfg k hb1r) fun _ => ?_
+  refine Keeps.bind (keeps_twoSew2 cfg k hl h6 hl6) fun _ => ?_
+  refine Keeps.bind (keeps_twoSew2 cfg k hr h3 hr3) fun _ => ?_
+  refine Keeps.bind (keeps_oneSew2 cfg k hl h1) fun _ => ?_
+  refine Keeps.bind (keeps_oneSew2 cfg k h1 hb0l) fun _ => ?_
+  refine Keeps.bind (keeps_oneSew2 cfg k h3 hb1l) fun _ => ?_
+  refine Keeps.bind (keeps_oneSew2 cfg k hb1l h2) fun _ => ?_
+  refine Keeps.bind (keeps_oneSew2 cfg k hr h4) fun _ => ?_
+  refine Keeps.bind (keeps_oneSew2 cfg k h4 hb0r) fun _ => ?_
+  refine Keeps.bind (keeps_oneSew2 cfg k h6 hb1r) fun _ => ?_
+  refine Keeps.bind (keeps_oneSew2 cfg k hb1r h5) fun _ => ?_
+  refine Keeps.bind (Keeps.of_attrOnly (ao_spreadFaceAnchor _ _ _ _ _)) fun _ => ?_
+  refine Keeps.bind (Keeps.of_attrOnly (ao_spreadFaceAnchor _ _ _ _ _)) fun _ => ?_
+  exact Keeps.of_attrOnly (ao_spreadEdgeAnchor _ _ _ _)
+
+/-- a dart with a non-null β1 image is none of the given free darts -/
+theorem not_spare {m : Map Val} {d : Nat} (hd : m.β 1 d ≠ 0) {l : List Nat} (hs : ∀ x, x ∈ l → Spare m x) : d ∉ l :=
+  fun hh => hd ((hs d hh).β 1 (by omega))
+
+/-- **C15 (a), cut_inner_edge**: every call with an in-use interior edge dart (`β2(e) ≠ 0`) whose two faces are
+    closed at the edge darts and six free in-use spare darts (`nd1 ≠ nd2`, `nd4 ≠ nd5`) leaves a well-formed 2-map
+    well formed. -/
+theorem C15_cutInner_preserves_WF (cfg : Cfg Val) (m : Map Val) (e nd1 nd2 nd3 nd4 nd5 nd6 : Nat) (hwf : WF 3 m)
+    (he : C01.InUse m e) (h2e : m.β 2 e ≠ 0) (hl : m.β 1 e ≠ 0 ∧ m.β 0 e ≠ 0)
+    (hr : m.β 1 (m.β 2 e) ≠ 0 ∧ m.β 0 (m.β 2 e) ≠ 0)
+    (hs : ∀ x, x ∈ [nd1, nd2, nd3, nd4, nd5, nd6] → Spare m x) (h12 : nd1 ≠ nd2) (h45 : nd4 ≠ nd5) :
+    WF 3 (atomically (cutInnerEdge cfg m.n e nd1 nd2 nd3 nd4 nd5 nd6) m).2 := by
+  refine wf_atomically_of hwf fun a m' h => ?_
+  have L : ∀ x, x ∈ [nd1, nd2, nd3, nd4, nd5, nd6] → Live m.n m.u x := fun x hx => Live.of_inUse (hs x hx).1
+  have L1 := L nd1 (by simp); have L2 := L nd2 (by simp); have L3 := L nd3 (by simp)
+  have L4 := L nd4 (by simp); have L5 := L nd5 (by simp); have L6 := L nd6 (by simp)
+  have Lr := live_image hwf (by omega : 2 < 3) he.2.1 h2e
+  have hne : e ∉ [nd1, nd2, nd3, nd4, nd5, nd6] := not_spare hl.1 hs
+  have hnr : m.β 2 e ∉ [nd1, nd2, nd3, nd4, nd5, nd6] := not_spare hr.1 hs
+  unfold cutInnerEdge at h
+  obtain ⟨_, m1, r1, h⟩ := run_bind_ok h
+  have I1 := Keeps.twoLinkCore (X := Val) L1 L2 h12 m m1 _ (Inv.of_wf hwf) r1
+  have F1 : Frame [nd1, nd2, nd3, nd4, nd5, nd6] m m1 := (frame_iLinkCore r1).mono (by simp)
+  obtain ⟨_, m2, r2, h⟩ := run_bind_ok h
+  have I2 := Keeps.oneLinkCore (X := Val) L2 L3 m1 m2 _ I1 r2
+  have F2 : Frame [nd1, nd2, nd3, nd4, nd5, nd6] m m2 := F1.trans ((frame_oneLinkCore r2).mono (by simp))
+  obtain ⟨_, m3, r3, h⟩ := run_bind_ok h
+  have I3 := Keeps.twoLinkCore (X := Val) L4 L5 h45 m2 m3 _ I2 r3
+  have F3 : Frame [nd1, nd2, nd3, nd4, nd5, nd6] m m3 := F2.trans ((frame_iLinkCore r3).mono (by simp))
+  obtain ⟨_, m4, r4, h⟩ := run_bind_ok h
+  have I4 := Keeps.oneLinkCore (X := Val) L5 L6 m3 m4 _ I3 r4
+  have F4 : Frame [nd1, nd2, nd3, nd4, nd5, nd6] m m4 := F3.trans ((frame_oneLinkCore r4).mono (by simp))
+  obtain ⟨_, h⟩ := rB_ok h
+  rw [F4 2 e hne] at h
+  obtain ⟨lf, m5, r5, h⟩ := run_bind_ok h
+  have I5 := inv_attrOnly (ao_takeFaceAnchor cfg m.n e) I4 r5
+  have F5 := F4.trans (frame_attrOnly (D := [nd1, nd2, nd3, nd4, nd5, nd6]) (ao_takeFaceAnchor cfg m.n e) r5)
+  obtain ⟨rf, m6, r6, h⟩ := run_bind_ok h
+  have I6 := inv_attrOnly (ao_takeFaceAnchor cfg m.n (m.β 2 e)) I5 r6
+  have F6 := F5.trans (frame_attrOnly (D := [nd1, nd2, nd3, nd4, nd5, nd6]) (ao_takeFaceAnchor cfg m.n (m.β 2 e)) r6)
+  obtain ⟨ea, m7, r7, h⟩ := run_bind_ok h
+  have I7 := inv_attrOnly (ao_peekEdgeAnchor cfg e) I6 r7
+  have F7 := F6.trans (frame_attrOnly (D := [nd1, nd2, nd3, nd4, nd5, nd6]) (ao_peekEdgeAnchor cfg e) r7)
+  obtain ⟨_, h⟩ := rB_ok h
+  obtain ⟨_, h⟩ := rB_ok h
+  obtain ⟨_, h⟩ := rB_ok h
+  obtain ⟨_, h⟩ := rB_ok h
+  rw [F7 0 e hne, F7 1 e hne, F7 0 _ hnr, F7 1 _ hnr] at h
+  have hl6 : e ≠ nd6 := fun hh => hne (by simp [hh])
+  have hr3 : m.β 2 e ≠ nd3 := fun hh => hnr (by simp [hh])
+  exact (keeps_cutInnerTail cfg m.n lf rf ea (Live.of_inUse he) Lr L1 L2 L3 L4 L5 L6
+    (live_image hwf (by omega) he.2.1 hl.2) (live_image hwf (by omega) he.2.1 hl.1)
+    (live_image hwf (by omega) Lr.2.1 hr.2) (live_image hwf (by omega) Lr.2.1 hr.1) hl6 hr3 m7 m' a I7 h).wf
+
 end HC.C15
